@@ -445,6 +445,8 @@ def work_sched_bilform(item):
 
     for idx, assign in enumerate(parts):
         for v, lists in enumerate((X, Y)):
+            if v == 1 and (item['lo'] + idx) % item['y_mod'] != 0:
+                continue  # the second list variant (also the predecessor call of the next schedule) on a subset
             spec = sched_spec(cname, kind, lists, cpu, assign)
             problems, info, val = bilform_call(spec, SL, nodes)
             out['n'] += 1
@@ -767,3 +769,701 @@ def work_probe_est(item):
     acct.done()
     return {'status': st, 'pools': info['pools'], 'workers': info['workers'], 'chunk_sizes': info['chunk_sizes'],
             'nchunks': info['nchunks'], 'apis': info['apis'], 'what': val if st == 'raised' else None}
+
+
+# =====================================================================================================
+# (c) crash points of the stored file
+POOL_ASSIGN = {'cpu': 2}
+
+
+def cache_call(fn, spec, d, use_mp=False):
+    """One call of a FRESH operator object bound to cache directory d."""
+    s = dict(spec)
+    s['cache_dir'] = d
+    s['use_mp'] = use_mp
+    if use_mp:
+        s['cpu'] = 2
+        s['assign'] = None  # round robin over two workers
+    if fn == 'bilform_matrix':
+        return bilform_call(s)
+    return linform_call(s)
+
+
+def cache_ref(fn, spec):
+    if fn == 'bilform_matrix':
+        return ref_matrix(spec['curve'], spec['mesh'], spec['test'], spec['trial'])
+    return ref_vector(spec['curve'], spec['mesh'], spec['test'])
+
+
+def file_problem(path, ref):
+    if not os.path.exists(path):
+        return 'no file is left behind'
+    st, arr = faultfs.load_file(path)
+    if st != 'ok':
+        return 'the file left behind cannot be loaded ({})'.format(arr)
+    d = diff(arr, ref)
+    return None if d is None else 'the file left behind holds a wrong array: ' + d
+
+
+def crash_spec(fn, cname, kind, N, M):
+    _, _, order = universe_of(cname, kind, 'test')
+    if fn == 'bilform_matrix':
+        te, tr = pick_lists(order, N, M, 0)
+        return {'fn': fn, 'curve': cname, 'mesh': kind, 'test': te, 'trial': tr}
+    return {'fn': fn, 'curve': cname, 'mesh': kind, 'test': linform_lists(cname, kind, N, 0)}
+
+
+def cold_store(fn, spec, d):
+    """First call against the empty directory d: (problems, file name, stored bytes)."""
+    problems, _, _ = cache_call(fn, spec, d)
+    names = faultfs.listing(d)
+    if problems:
+        return problems, None, None
+    if len(names) != 1:
+        return ['{} file(s) in the cache directory after the first call: {}'.format(len(names), names)], None, None
+    data = faultfs.read(os.path.join(d, names[0]))
+    fp = file_problem(os.path.join(d, names[0]), cache_ref(fn, spec))
+    return ([fp] if fp else []), names[0], data
+
+
+def crash_one(fn, spec, d, name, pristine, fault, use_mp=False):
+    """fault = ('prefix', n) or ('garbage', variant name, bytes).  Returns (problems, scope)."""
+    path = os.path.join(d, name)
+    ref = cache_ref(fn, spec)
+    data = pristine[:fault[1]] if fault[0] == 'prefix' else fault[2]
+    faultfs.write(path, data)
+    st, arr = faultfs.load_file(path)
+    if st == 'ok' and diff(arr, ref) is not None:
+        scope = 'undetectable'  # the reader accepts the damaged file: nothing short of a checksum could notice
+    elif st == 'ok':
+        scope = 'harmless'
+    else:
+        scope = 'rejected:' + arr
+    problems, _, val = cache_call(fn, spec, d, use_mp)
+    if scope == 'undetectable':
+        return [], scope + (':returned-as-is' if problems else ':recomputed')
+    fp = file_problem(path, ref)
+    if fp and not problems:
+        problems = [fp]
+    return problems, scope
+
+
+def work_crash(item):
+    fn = item['fn']
+    acct = Acct()
+    spec = crash_spec(fn, item['curve'], item['mesh'], item['N'], item.get('M'))
+    out = {'clause': 'crash', 'fn': fn, 'n': 0, 'viols': [], 'scopes': {}, 'size': 0, 'hits': 0, 'samples': [], 'observations': []}
+    d = faultfs.tmpdir()
+    try:
+        reset_globals()
+        problems, name, pristine = cold_store(fn, spec, d)
+        out['n'] += 1
+        if problems:
+            out['viols'].append(({'clause': 'crash', 'fn': fn, 'fault': 'none'}, 'first call with an empty cache directory: ' + problems[0],
+                                 dict(spec, clause='crash', fault=['cold'])))
+            return out
+        out['size'] = len(pristine)
+        path = os.path.join(d, name)
+        if item['lo'] == 0:
+            # warm call: must be served bitwise-correctly and must not rewrite the file (cache hit observed)
+            os.utime(path, ns=(10**9, 10**9))
+            problems, _, _ = cache_call(fn, spec, d)
+            out['n'] += 1
+            if os.stat(path).st_mtime_ns == 10**9:
+                out['hits'] += 1
+            for p in problems:
+                out['viols'].append(({'clause': 'crash', 'fn': fn, 'fault': 'warm'}, 'warm call: ' + p, dict(spec, clause='crash', fault=['warm'])))
+        faults = [('prefix', n) for n in range(item['lo'], min(item['hi'], len(pristine)))]
+        extra = []
+        if item.get('extras'):
+            gv = faultfs.garbage_variants(pristine, seed=1)
+            other = np.zeros((3, 2)) if fn == 'bilform_matrix' else np.zeros(2)
+            import io
+            buf = io.BytesIO()
+            np.save(buf, other)
+            gv['valid-other-shape'] = buf.getvalue()
+            extra = [('garbage', k, v) for k, v in sorted(gv.items())]
+            extra += [('prefix', faultfs.class_length(pristine, c)) for c in faultfs.LENGTH_CLASSES]
+        for use_mp, fl in ((False, faults), (False, extra), (True, extra)):
+            for fault in fl:
+                problems, scope = crash_one(fn, spec, d, name, pristine, fault, use_mp)
+                out['n'] += 1
+                tag = scope.split(':')[0] + (':' + scope.split(':')[1] if scope.startswith('rejected') else '')
+                out['scopes'][tag] = out['scopes'].get(tag, 0) + 1
+                if scope.startswith('undetectable') and not use_mp:
+                    out['observations'].append('{}: a well-formed file with other content ({}) is {}'.format(
+                        fn, fault[1], 'returned without validation' if scope.endswith('returned-as-is') else 'not used'))
+                for p in problems:
+                    if len(out['viols']) < 3:
+                        fkey = 'truncated' if fault[0] == 'prefix' else 'garbage'
+                        what = '{}: stored file {} ({} bytes) {}; next call ({}): {}'.format(
+                            describe(dict(spec, use_mp=use_mp)), name, len(pristine),
+                            'truncated to {} bytes'.format(fault[1]) if fault[0] == 'prefix' else 'replaced by variant ' + fault[1],
+                            'pool' if use_mp else 'serial', p)
+                        rp = dict(spec, clause='crash', fault=[fault[0], fault[1]], recompute='pool' if use_mp else 'serial')
+                        out['viols'].append(({'clause': 'crash', 'fn': fn, 'fault': fkey}, what, rp))
+        if faults:
+            out['samples'].append({'clause': 'crash', 'fn': fn, 'curve': item['curve'], 'file': name, 'size': len(pristine),
+                                   'prefix_lengths': [faults[0][1], faults[-1][1]]})
+    finally:
+        faultfs.rmtree(d)
+    out['acct'] = acct.done()
+    return out
+
+
+# =====================================================================================================
+# (d) cache histories: explicit-state search in lock-step with a dictionary model of the cache
+HIST_SHAPE = (25, 4)
+HIST_LABELS = ('A', 'B', 'C', 'A2')
+HIST_OPS = [('asm', 'A', 'serial'), ('asm', 'A', 'pool'), ('asm', 'B', 'serial'), ('asm', 'C', 'serial'), ('asm', 'A2', 'serial'),
+            ('trunc', 'empty'), ('trunc', 'header'), ('trunc', 'half'), ('trunc', 'short1'), ('del', ),
+            ('ro', 'fs'), ('ro', 'dir'), ('rw', )]
+
+
+def hist_requests():
+    """A: lists on the unit square; B: same test list, other trial list; C: other test list, same trial list;
+    A2: the elements with the SAME (t, x) intervals - the same reprs - on the L-shape."""
+    def mk():
+        N, M = HIST_SHAPE
+        _, nodesU, _ = universe_of('UnitSquare', 'twin', 'test')
+        _, nodesL, _ = universe_of('LShape', 'twin', 'test')
+        shared = sorted(r for r in nodesU if r in nodesL and r[3] - r[2] == 0.5 and r[1] - r[0] == 0.25 and r[3] <= 4.0)
+        if len(shared) < N + 4:
+            raise HarnessError('only {} elements with identical intervals on unit square and L-shape'.format(len(shared)))
+        A = pick_lists(shared, N, M, 0)
+        Bv = pick_lists(shared, N, M, 1)
+        reqs = {'A': ('UnitSquare', A[0], A[1]), 'B': ('UnitSquare', A[0], Bv[1]), 'C': ('UnitSquare', Bv[0], A[1]),
+                'A2': ('LShape', A[0], A[1])}
+        for k in (0, 1):
+            if str(elems_of(nodesU, A[k])) != str(elems_of(nodesL, A[k])):
+                raise HarnessError('element reprs differ between the twin meshes')
+        if A[1] == Bv[1] or A[0] == Bv[0]:
+            raise HarnessError('list variants coincide')
+        refs = {k: ref_matrix(c, 'twin', te, tr) for k, (c, te, tr) in reqs.items()}
+        for a, b in itertools.combinations(HIST_LABELS, 2):
+            if np.array_equal(refs[a], refs[b]):
+                raise HarnessError('requests {} and {} have equal reference matrices - a shared entry would go unnoticed'.format(a, b))
+        return reqs, refs
+    return memo(('HREQ', ), mk)
+
+
+def hist_spec(label):
+    reqs, _ = hist_requests()
+    c, te, tr = reqs[label]
+    return {'fn': 'bilform_matrix', 'curve': c, 'mesh': 'twin', 'test': te, 'trial': tr}
+
+
+def hist_names():
+    """Which file does each request create in an empty directory, and with which bytes?  (observed, not computed)"""
+    def mk():
+        names, pristine, problems = {}, {}, {}
+        for lab in HIST_LABELS:
+            d = faultfs.tmpdir()
+            try:
+                reset_globals()
+                pr, name, data = cold_store('bilform_matrix', hist_spec(lab), d)
+                if pr:
+                    problems[lab] = pr[0]
+                names[lab], pristine[lab] = name, data
+            finally:
+                faultfs.rmtree(d)
+        return names, pristine, problems
+    return memo(('HNAMES', ), mk)
+
+
+def label_of(name):
+    names, _, _ = hist_names()
+    labs = [l for l in HIST_LABELS if names[l] == name]
+    return '|'.join(labs) if labs else 'X:' + name
+
+
+def enabled_ops(state):
+    files, order, ro, glob = state
+    ops = []
+    for op in HIST_OPS:
+        if op[0] in ('trunc', 'del') and not order:
+            continue
+        if op[0] == 'ro' and ro is not None:
+            continue
+        if op[0] == 'rw' and ro is None:
+            continue
+        ops.append(op)
+    return ops
+
+
+def model_step(model, op):
+    """Dictionary model of the cache: model = (dict label -> content class, write order (oldest first), ro mode)."""
+    files, order, ro = dict(model[0]), list(model[1]), model[2]
+    if op[0] == 'asm':
+        lab = op[1]
+        cls = files.get(lab)
+        if cls != 'intact':  # miss: recompute, then store if the directory allows it
+            can_store = ro is None or (ro == 'dir' and cls is not None)
+            if can_store:
+                files[lab] = 'intact'
+                if lab in order:
+                    order.remove(lab)
+                order.append(lab)
+    elif op[0] == 'trunc':
+        files[order[-1]] = op[1]
+    elif op[0] == 'del':
+        files.pop(order.pop(), None)
+    elif op[0] == 'ro':
+        ro = op[1]
+    elif op[0] == 'rw':
+        ro = None
+    return files, order, ro
+
+
+def run_history(ops):
+    """Replays a history on a fresh directory with fresh operators.  Returns (violations, canonical state, stats);
+    violations = [(key, text)]."""
+    ops = [tuple(o) for o in ops]
+    names, pristine, _ = hist_names()
+    _, refs = hist_requests()
+    viols = []
+    stats = {'asm': 0, 'hits': 0, 'denied': 0}
+    d = faultfs.tmpdir()
+    denied0 = faultfs.DENIED[0]
+    model = ({}, [], None)
+    order = []  # file names, oldest write first
+    glob = None
+    try:
+        reset_globals()
+        for step, op in enumerate(ops):
+            pre = {n: faultfs.read(os.path.join(d, n)) for n in faultfs.listing(d)}
+            if op[0] == 'asm':
+                lab, path = op[1], op[2]
+                spec = hist_spec(lab)
+                expected_hit = model[0].get(lab) == 'intact'
+                problems, info, _ = cache_call('bilform_matrix', spec, d, use_mp=(path == 'pool'))
+                stats['asm'] += 1
+                if path == 'pool' and info['pools']:
+                    glob = lab
+                for p in problems:
+                    viols.append(({'clause': 'history', 'tag': 'result'},
+                                  'step {} {}: request {} ({} on {}) {}'.format(step + 1, list(op), lab, 'x'.join(map(str, HIST_SHAPE)), spec['curve'], p)))
+                post = {n: faultfs.read(os.path.join(d, n)) for n in faultfs.listing(d)}
+                written = [n for n in post if post[n] != pre.get(n)]
+                if expected_hit and not written and not problems:
+                    stats['hits'] += 1
+                for n in sorted(written):
+                    if n in order:
+                        order.remove(n)
+                    order.append(n)
+            elif op[0] == 'trunc':
+                n = order[-1]
+                base = pristine.get(label_of(n).split('|')[0])
+                if base is None:
+                    raise HarnessError('no pristine bytes for ' + n)
+                faultfs.write(os.path.join(d, n), base[:faultfs.class_length(base, op[1])])
+            elif op[0] == 'del':
+                faultfs.delete(os.path.join(d, order.pop()))
+            elif op[0] == 'ro':
+                faultfs.make_readonly(d, op[1])
+            elif op[0] == 'rw':
+                faultfs.make_writable(d)
+            model = model_step(model, op)
+            # ---- observed directory against the model
+            post = {n: faultfs.read(os.path.join(d, n)) for n in faultfs.listing(d)}
+            obs = {}
+            for n, data in post.items():
+                lab = label_of(n)
+                base = pristine.get(lab.split('|')[0])
+                cls = faultfs.content_class(data, base)
+                obs[lab] = cls
+                if cls == 'loadable-other' or (cls == 'intact' and '|' in lab):
+                    st, arr = faultfs.loads(data)
+                    for l in lab.split('|'):
+                        if l in refs and diff(arr, refs[l]) is not None:
+                            viols.append(({'clause': 'history', 'tag': 'file-content'},
+                                          'step {} {}: file {} is what request {} loads, but it holds another array: {}'.format(
+                                              step + 1, list(op), n, l, diff(arr, refs[l]))))
+                            break
+            if op[0] == 'asm' and obs != model[0] and not viols:
+                viols.append(({'clause': 'history', 'tag': 'cache-state'},
+                              'step {} {}: cache directory holds {} but a best-effort cache would hold {} (mode {})'.format(
+                                  step + 1, list(op), sorted(obs.items()), sorted(model[0].items()), model[2] or 'writable')))
+            if viols:
+                break
+        state = (tuple(sorted(obs.items())) if ops else (), tuple(label_of(n) for n in order), model[2], glob)
+    finally:
+        faultfs.rmtree(d)
+    stats['denied'] = faultfs.DENIED[0] - denied0
+    return viols, state, stats
+
+
+def work_history(item):
+    acct = Acct()
+    ops = item['ops']
+    viols, state, stats = run_history(ops)
+    out = {'clause': 'history', 'viols': [(k, 'history {}: {}'.format([list(o) for o in ops], w), {'clause': 'history', 'ops': [list(o) for o in ops]})
+                                         for k, w in viols[:1]],
+           'state': state, 'stats': stats, 'nonrepro': []}
+    if item.get('twice'):
+        v2, s2, _ = run_history(ops)
+        if s2 != state or [w for _, w in v2] != [w for _, w in viols]:
+            out['nonrepro'].append('history {}'.format(ops))
+    out['acct'] = acct.done()
+    return out
+
+
+# =====================================================================================================
+# driver
+WORKERS = {'paths': work_paths, 'probe': work_probe, 'sched_bilform': work_sched_bilform, 'sched_linform': work_sched_linform,
+           'probe_linform': work_probe_linform, 'sched_est': work_sched_est, 'probe_est': work_probe_est, 'crash': work_crash,
+           'history': work_history}
+
+
+def work(item):
+    return WORKERS[item['w']](item)
+
+
+PARAMS = {
+    'quick': dict(sched_curves={(34, 3): ('UnitSquare', ), (25, 4): ('Circle', ), (20, 5): ('LShape', ), (17, 6): ('UnitSquare', )},
+                  extra=((6, 17, 1), (3, 34, 1), (2, 50, 1)), twice_mod=4, y_mod=3, batch=24,
+                  lin_curves=('UnitSquare', ), lin_cpus=lambda N: list(range(1, N + 1)), npoly=3, est_curves=('UnitSquare', ),
+                  crash_mat=(('UnitSquare', 34, 3), ), crash_vec=(('UnitSquare', 6), ), hist_depth=3, selftest_pools=120),
+    'thorough': dict(sched_curves={s: PATH_CURVES for s in SCHED_SHAPES},
+                     extra=((6, 17, 1), (3, 34, 1), (2, 50, 1), (4, 32, 2)), twice_mod=1, y_mod=1, batch=32,
+                     lin_curves=('UnitSquare', 'LShape'), lin_cpus=lambda N: list(range(1, N + 1)) + [16], npoly=5,
+                     est_curves=('UnitSquare', 'Circle'),
+                     crash_mat=(('UnitSquare', 34, 3), ('Circle', 25, 4), ('LShape', 20, 5), ('UnitSquare', 17, 6)),
+                     crash_vec=(('UnitSquare', 6), ('LShape', 5), ('UnitSquare', 3)), hist_depth=4, selftest_pools=2000),
+}
+MAX_PARTITIONS = 40000
+
+
+def split_ranges(total, batch):
+    return [(lo, min(total, lo + batch)) for lo in range(0, total, batch)]
+
+
+def run(ctx):
+    P = PARAMS[ctx.tier]
+    notes = {}
+    # ---- the machinery first
+    st = vpool.selftest(P['selftest_pools'])
+    ctx.note('virtual pool self-test: {} pools, {} workers forked and reaped, fds {} -> {}'.format(
+        st['pools'], st['forks'], st['fds_before'], st['fds_after']))
+    lin_broken = linform_status()
+    if lin_broken:
+        ctx.note('linform clauses SKIPPED: InitialOperator.linform is dead on this tree ({}); this is the known '
+                 'initial_mesh.py / NumPy-2 defect, reported and repaired outside C17'.format(lin_broken))
+
+    # ---- probes: which pools / chunk lists do the calls create?
+    probes = []
+    for (N, M), curves in P['sched_curves'].items():
+        for c in curves:
+            for cpu in range(1, 17):
+                probes.append({'w': 'probe', 'curve': c, 'mesh': SCHED_MESH, 'N': N, 'M': M, 'cpu': cpu})
+    for (N, M, cpu) in P['extra']:
+        probes.append({'w': 'probe', 'curve': 'UnitSquare', 'mesh': SCHED_MESH, 'N': N, 'M': M, 'cpu': cpu})
+    if not lin_broken:
+        for c in P['lin_curves']:
+            for N in (3, 4, 5, 6):
+                for cpu in P['lin_cpus'](N):
+                    probes.append({'w': 'probe_linform', 'curve': c, 'mesh': 'uniform1', 'N': N, 'cpu': cpu})
+    for c in P['est_curves']:
+        for cpu in (1, 2, 3):
+            probes.append({'w': 'probe_est', 'curve': c, 'npoly': P['npoly'], 'cpu': cpu, 'fn': 'estimate_sobolev'})
+        for cpu in (1, 2, 3, 4):
+            probes.append({'w': 'probe_est', 'curve': c, 'npoly': P['npoly'], 'cpu': cpu, 'fn': 'estimate_weighted_l2'})
+    t_ph = time.time()
+    pres = common.pmap(work, probes, ctx.jobs, chunksize=1)
+    ctx.note('{} probes in {:.1f} s'.format(len(probes), time.time() - t_ph))
+
+    items = []
+    chunkings = set()
+    not_enumerated = []
+    sched_total = {}
+    uncontrolled_cases = []
+    for pr, res in zip(probes, pres):
+        fn = {'probe': 'bilform_matrix', 'probe_linform': 'linform_vector'}.get(pr['w'], pr.get('fn'))
+        wname = {'probe': 'sched_bilform', 'probe_linform': 'sched_linform', 'probe_est': 'sched_est'}[pr['w']]
+        base = dict(pr, w=wname, twice_mod=P['twice_mod'], y_mod=P['y_mod'])
+        if res['status'] == 'raised' or res['pools'] != 1:
+            # no (single) controlled pool to schedule: run the call once under the default schedule; the comparison
+            # still decides, the evidence records the lack of control
+            uncontrolled_cases.append({'case': {k: v for k, v in pr.items() if k != 'w'}, 'pools': res['pools'], 'raised': res['what']})
+            items.append(dict(base, nchunks=0, nworkers=1, lo=0, hi=1, nocontrol=True))
+            continue
+        nworkers = res['workers'][0]
+        nchunks = res['nchunks']
+        chunkings.add((fn, tuple(tuple(c) for c in res['chunk_sizes'])))
+        total = vpool.count_set_partitions(nchunks, nworkers)
+        key = (fn, pr['curve'], pr.get('N'), pr.get('M'), pr['cpu'])
+        if total > MAX_PARTITIONS:
+            not_enumerated.append({'case': key, 'partitions': total})
+            continue
+        sched_total[key] = total
+        for lo, hi in split_ranges(total, P['batch']):
+            items.append(dict(base, nchunks=nchunks, nworkers=nworkers, lo=lo, hi=hi))
+    # ---- paths
+    for c in PATH_CURVES:
+        for k in PATH_MESHES:
+            items.append({'w': 'paths', 'curve': c, 'mesh': k})
+    # ---- crash points
+    for (c, N, M) in P['crash_mat']:
+        size = 128 + 8 * N * M
+        for i, (lo, hi) in enumerate(split_ranges(size + 64, 64)):
+            items.append({'w': 'crash', 'fn': 'bilform_matrix', 'curve': c, 'mesh': SCHED_MESH, 'N': N, 'M': M, 'lo': lo, 'hi': hi,
+                          'extras': i == 0})
+    if not lin_broken:
+        for (c, N) in P['crash_vec']:
+            size = 128 + 8 * N
+            for i, (lo, hi) in enumerate(split_ranges(size + 16, 16)):
+                items.append({'w': 'crash', 'fn': 'linform_vector', 'curve': c, 'mesh': 'uniform1', 'N': N, 'lo': lo, 'hi': hi,
+                              'extras': i == 0})
+    cost = {'sched_bilform': lambda it: (it['hi'] - it['lo']) * (2 + it['cpu']), 'sched_linform': lambda it: (it['hi'] - it['lo']) * 12,
+            'sched_est': lambda it: (it['hi'] - it['lo']) * 12, 'paths': lambda it: 900, 'crash': lambda it: 300}
+    items.sort(key=lambda it: -cost[it['w']](it))
+    t_ph = time.time()
+    results = common.pmap(work_guard, items, ctx.jobs, chunksize=1)
+    ctx.note('{} work items (paths, schedules, crash points) in {:.1f} s'.format(len(items), time.time() - t_ph))
+    walls = {}
+    for it, r in zip(items, results):
+        w = walls.setdefault(it['w'], [0, 0.0, 0.0])
+        w[0] += 1
+        w[1] += r['wall']
+        w[2] = max(w[2], r['wall'])
+    ctx.note('cpu-seconds per item type (items, total, longest): {}'.format({k: (v[0], round(v[1]), round(v[2], 1)) for k, v in walls.items()}))
+    # ---- aggregate
+    agg = {}
+    samples = []
+    nonrepro = []
+    acct = {'forks': 0, 'reaped': 0, 'uncontrolled': 0, 'max_fd_delta': 0}
+    evaluations = 0
+    distinct = 0
+    observations = set()
+    crash_sizes = {}
+    scopes = {}
+    path_classes = {}
+    for it, r in zip(items, results):
+        key = r['clause'] + ('/' + r['fn'] if 'fn' in r else '')
+        a = agg.setdefault(key, {'calls': 0, 'schedules': 0, 'run_twice': 0, 'completion_orders': 0, 'chunks_on_fresh_worker': 0,
+                                 'chunks_on_used_worker': 0, 'tasks_compared_individually': 0})
+        a['calls'] += r['n']
+        evaluations += r['n']
+        for src, dst in (('schedules', 'schedules'), ('twice', 'run_twice'), ('orders', 'completion_orders'), ('fresh', 'chunks_on_fresh_worker'),
+                         ('used', 'chunks_on_used_worker'), ('tasks_compared', 'tasks_compared_individually')):
+            a[dst] += r.get(src, 0)
+        for k, what, rp in r['viols']:
+            ctx.violation(k, what, rp)
+        nonrepro += r.get('nonrepro', [])
+        if len(samples) < 12 or r['clause'] not in [s.get('clause') for s in samples]:
+            samples += r.get('samples', [])[:1]
+        for k in ('forks', 'reaped', 'uncontrolled'):
+            acct[k] += r.get('acct', {}).get(k, 0)
+        acct['max_fd_delta'] = max(acct['max_fd_delta'], r.get('acct', {}).get('fd_delta', 0))
+        if r['clause'] == 'schedule':
+            distinct += r['distinct'] if isinstance(r['distinct'], int) else 0
+            if 'sens' in r:
+                a['stale_sensitive_triples_min'] = min(a.get('stale_sensitive_triples_min', 10**9), *r['sens'])
+        if r['clause'] == 'paths':
+            distinct += len(r['nontrivial'])
+            a['asymmetric_pairs'] = a.get('asymmetric_pairs', 0) + r['asym_pairs']
+            a['entries_compared'] = a.get('entries_compared', 0) + r['entries']
+            a['pool_path_calls_with_controlled_pool'] = a.get('pool_path_calls_with_controlled_pool', 0) + r['pool_calls']
+            a['inline_calls_that_created_a_pool'] = a.get('inline_calls_that_created_a_pool', 0) + r['inline_pools']
+            for k, v in r['classes'].items():
+                path_classes[k] = path_classes.get(k, 0) + v
+        if r['clause'] == 'crash':
+            observations.update(r['observations'])
+            crash_sizes[(r['fn'], it['curve'])] = r['size']
+            a['cache_hits_observed'] = a.get('cache_hits_observed', 0) + r['hits']
+            for k, v in r['scopes'].items():
+                scopes[r['fn'] + ' ' + k] = scopes.get(r['fn'] + ' ' + k, 0) + v
+            distinct += sum(v for k, v in r['scopes'].items() if not k.startswith('undetectable'))
+    if nonrepro:
+        raise HarnessError('determinism self-check failed, the same schedule gave different bits twice: {}'.format(nonrepro[:3]))
+
+    # ---- (d) cache histories
+    hist = explore_histories(ctx, P['hist_depth'])
+    evaluations += hist['transitions']
+    ctx.note('cache histories to depth {}: {} states, {} transitions in {:.1f} s'.format(
+        P['hist_depth'], hist['states'], hist['transitions'], time.time() - t_ph))
+    distinct += hist['states']
+    samples += hist['samples']
+    for k in ('forks', 'reaped', 'uncontrolled'):
+        acct[k] += hist['acct'][k]
+
+    # ---- vacuity guards
+    def need(cond, msg):
+        if not cond:
+            raise HarnessError('vacuous clause: ' + msg)
+
+    controlled = not uncontrolled_cases
+    need(agg.get('paths/bilform_matrix', {}).get('calls', 0) > 0 if 'paths/bilform_matrix' in agg else agg.get('paths', {}).get('calls', 0) > 0,
+         'no path case ran')
+    pa = agg.get('paths', agg.get('paths/bilform_matrix', {}))
+    need(pa.get('asymmetric_pairs', 0) > 0, 'no space-time-asymmetric pair in the path lists')
+    need(any(k.startswith('nested') for k in path_classes) and any(k.startswith('seam') for k in path_classes)
+         and any(k.endswith('acausal') for k in path_classes), 'path lists lack nested / seam / acausal pairs')
+    sb = agg.get('schedule/bilform_matrix', {})
+    need(sb.get('schedules', 0) > 0, 'no bilform_matrix schedule ran')
+    if controlled:
+        need(sb.get('chunks_on_used_worker', 0) > 0 and sb.get('chunks_on_fresh_worker', 0) > 0, 'no chunk ran on a used / fresh worker')
+        need(sb.get('stale_sensitive_triples_min', 0) > 0, 'a schedule list has no early-column / late-column / acausal-row triple')
+        need(sb.get('run_twice', 0) > 0, 'no schedule was run twice')
+        for (N, M), curves in P['sched_curves'].items():
+            for c in curves:
+                for cpu in range(1, 17):
+                    want = vpool.count_set_partitions(M, cpu)
+                    got = sched_total.get(('bilform_matrix', c, N, M, cpu))
+                    need(got is not None and got >= 1, 'schedules of {}x{} cpu={} on {} not enumerated'.format(N, M, cpu, c))
+                    if got != want:
+                        notes['chunking_differs_from_design'] = 'partition count for {}x{} cpu={} is {} (one chunk per column would give {})'.format(N, M, cpu, got, want)
+        need(agg.get('schedule/estimate_sobolev', {}).get('schedules', 0) > 0, 'no estimate_sobolev schedule ran')
+        need(agg.get('schedule/estimate_weighted_l2', {}).get('schedules', 0) > 0, 'no estimate_weighted_l2 schedule ran')
+        if not lin_broken:
+            need(agg.get('schedule/linform_vector', {}).get('schedules', 0) > 0, 'no linform_vector schedule ran')
+    cm = agg.get('crash/bilform_matrix', {})
+    need(cm.get('calls', 0) > 0 and any(k.startswith('bilform_matrix rejected') for k in scopes), 'no crash point ran')
+    for (fn, c), size in crash_sizes.items():
+        need(size > 0, 'no stored file for {} on {}'.format(fn, c))
+    need(cm.get('cache_hits_observed', 0) > 0 or ctx.n_viol > 0, 'no cache hit observed for the matrix')
+    need(hist['states'] > 1 and hist['transitions'] > 0, 'history search explored nothing')
+    need(hist['hits'] > 0 or ctx.n_viol > 0, 'history search never observed a cache hit')
+    need(hist['denied'] > 0 or ctx.n_viol > 0, 'history search never exercised the read-only fault')
+
+    for o in sorted(observations):
+        ctx.note('observation (outside the decided space): ' + o)
+    if uncontrolled_cases:
+        ctx.note('{} case(s) did not create exactly one controlled pool - compared under the default schedule only: {}'.format(
+            len(uncontrolled_cases), uncontrolled_cases[:2]))
+    if acct['uncontrolled']:
+        ctx.note('uncontrolled genuine multiprocessing pools were created by the code under test: {}'.format(acct['uncontrolled']))
+    prefixes = sum(v for k, v in scopes.items())
+    cov = {
+        'evaluations': int(evaluations),
+        'distinct_nontrivial': int(distinct),
+        'rule': 'evaluations = calls into bilform_matrix / linform_vector / estimate_* plus history transitions, each compared bitwise '
+                'with single evaluations on fresh operators. distinct_nontrivial counts distinct (function, shape, cpu, schedule, list '
+                'variant) tuples of the schedule clause + distinct (curve, mesh, shape, path) of the path clause + distinct file faults '
+                'whose file the reader rejects or that are harmless (undetectable ones excluded) + distinct canonical cache states; '
+                'reruns for the determinism check and completion-order reruns are not counted',
+        'samples': samples[:16],
+        'exhaustive': not not_enumerated or all(x['case'][0] == 'bilform_matrix' and (x['case'][2], x['case'][3], x['case'][4]) in P['extra']
+                                                for x in not_enumerated),
+        'per_clause': agg,
+        'schedules_enumerated_per_case': {'{} {} {}x{} cpu={}'.format(*k): v for k, v in sorted(sched_total.items(), key=str)
+                                          if k[4] in (1, 2, 3, 6, 16)},
+        'schedules_total': int(sum(sched_total.values())),
+        'distinct_chunkings': [{'fn': f, 'chunk_sizes_per_call': c} for f, c in sorted(chunkings)],
+        'not_enumerated': not_enumerated,
+        'crash_file_sizes': {'{} {}'.format(*k): v for k, v in crash_sizes.items()},
+        'file_faults_by_reader_verdict': scopes,
+        'file_faults_total': prefixes,
+        'path_pair_classes': len(path_classes),
+        'history': {k: v for k, v in hist.items() if k not in ('samples', 'acct')},
+        'virtual_pool': dict(acct, selftest=st, controlled=controlled),
+        'linform_clauses': 'skipped: ' + lin_broken if lin_broken else 'run',
+        'observations': sorted(observations),
+    }
+    cov.update(notes)
+    return ctx.finish('fault_enumeration', cov, [
+        'schedules: workers of a pool share nothing but what they inherit at fork time, so only the chunk -> worker map (set '
+        'partitions, <= cpu blocks) and, for unordered APIs, the completion order can influence a result; the real OS scheduler, '
+        'fork failures and worker death are not modelled',
+        'cpu_count in 1..16; chunk sizes are those the code derives from cpu_count (M >= 16 columns give multi-item chunks; with two or '
+        'more workers these have too many schedules and are listed under not_enumerated)',
+        'corrupt cache file = truncated at any byte length, or any content that numpy.load rejects; well-formed files with other '
+        'content cannot be told apart without a checksum and are reported as observations only',
+        'read-only directory is injected at builtins.open / io.open / os.open (the harness runs as root, for whom permission bits are not '
+        'enforced): mode fs = every write fails (EROFS), mode dir = creating / deleting entries fails (EACCES)',
+        'operators with different quad_order / pw_exact sharing one cache directory are outside the property; concurrent writers are not modelled',
+        'floating point reproducibility on this machine (checked by running schedules twice), OMP/OPENBLAS threads = 1',
+        'InitialOperator on the circle needs quadpy (not importable): load-vector clauses use the unit square and the L-shape',
+    ])
+
+
+def work_guard(item):
+    t0 = time.time()
+    r = work_nocontrol(item) if item.get('nocontrol') else work(item)
+    r['wall'] = time.time() - t0
+    return r
+
+
+def work_nocontrol(item):
+    """The call does not create one controlled pool (or raises): compare it once under the default schedule."""
+    acct = Acct()
+    w = item['w']
+    reset_globals()
+    if w == 'sched_bilform':
+        X, _ = sched_lists(item['curve'], item['mesh'], item['N'], item['M'])
+        spec = sched_spec(item['curve'], item['mesh'], X, item['cpu'], None)
+        problems, info, _ = bilform_call(spec)
+        fn = 'bilform_matrix'
+    elif w == 'sched_linform':
+        spec = {'clause': 'schedule', 'fn': 'linform_vector', 'curve': item['curve'], 'mesh': item['mesh'],
+                'test': linform_lists(item['curve'], item['mesh'], item['N'], 0), 'use_mp': True, 'cpu': item['cpu'], 'assign': None}
+        problems, info, _ = linform_call(spec)
+        fn = 'linform_vector'
+    else:
+        spec = {'clause': 'schedule', 'fn': item['fn'], 'curve': item['curve'], 'npoly': item['npoly'], 'cpu': item['cpu'], 'assign': None}
+        problems, info, _ = est_call(spec)
+        fn = item['fn']
+    out = {'clause': 'schedule', 'fn': fn, 'n': 1, 'schedules': 0, 'viols': [], 'distinct': 0}
+    for p in problems[:1]:
+        rp = dict(spec)
+        rp['prev'] = None
+        out['viols'].append(({'clause': 'schedule', 'fn': fn}, '{} cpu={} (first call in a fresh process, default schedule): {}'.format(
+            fn, item['cpu'], p), rp))
+    out['acct'] = acct.done()
+    return out
+
+
+def explore_histories(ctx, depth):
+    names, pristine, problems = hist_names()
+    for lab, p in problems.items():
+        ctx.violation({'clause': 'history', 'tag': 'result'}, 'request {} against an empty cache directory: {}'.format(lab, p),
+                      {'clause': 'history', 'ops': [['asm', lab, 'serial']]})
+    collisions = 0
+    for a, b in itertools.combinations(HIST_LABELS, 2):
+        if names[a] is not None and names[a] == names[b]:
+            collisions += 1
+            ra, rb = hist_spec(a), hist_spec(b)
+            differ = 'curve' if ra['curve'] != rb['curve'] else ('trial list' if ra['trial'] != rb['trial'] else 'test list')
+            ctx.violation({'clause': 'cache-key', 'differ': differ},
+                          'requests {} and {} ({} differs: {} vs {}) resolve to the same cache file {}'.format(
+                              a, b, differ, ra['curve'] + str(ra[('trial' if differ == 'trial list' else 'test')][:2]),
+                              rb['curve'] + str(rb[('trial' if differ == 'trial list' else 'test')][:2]), names[a]),
+                          {'clause': 'cache-key', 'a': a, 'b': b})
+    state0 = ((), (), None, None)
+    seen = {state0: ()}
+    frontier = [((), state0)]
+    out = {'depth': depth, 'states': 1, 'transitions': 0, 'asm_calls': 0, 'hits': 0, 'denied': 0, 'name_collisions': collisions,
+           'states_per_depth': [1], 'alphabet': [list(o) for o in HIST_OPS], 'samples': [],
+           'acct': {'forks': 0, 'reaped': 0, 'uncontrolled': 0}, 'file_names': names}
+    reported = 0
+    for dpt in range(depth):
+        items = [{'w': 'history', 'ops': list(h) + [op], 'twice': dpt < 2} for h, s in frontier for op in enabled_ops(s)]
+        res = common.pmap(work, items, ctx.jobs, chunksize=4)
+        new = []
+        for it, r in zip(items, res):
+            out['transitions'] += 1
+            out['asm_calls'] += r['stats']['asm']
+            out['hits'] += r['stats']['hits']
+            out['denied'] += r['stats']['denied']
+            for k in ('forks', 'reaped', 'uncontrolled'):
+                out['acct'][k] += r['acct'][k]
+            if r['nonrepro']:
+                raise HarnessError('determinism self-check failed: {}'.format(r['nonrepro']))
+            if r['viols']:
+                if reported < 4:  # BFS order: the shortest counterexamples first
+                    reported += 1
+                    for k, what, rp in r['viols']:
+                        ctx.violation(k, what, rp)
+                continue  # do not expand a violating history
+            s = tuple(r['state'])
+            if s not in seen:
+                seen[s] = tuple(map(tuple, it['ops']))
+                new.append((seen[s], s))
+        out['states'] += len(new)
+        out['states_per_depth'].append(len(new))
+        frontier = new
+        if not frontier:
+            break
+    hs = sorted(seen.values(), key=lambda h: (len(h), h))
+    out['samples'] = [{'clause': 'history', 'ops': [list(o) for o in h]} for h in (hs[1:3] + hs[-2:])]
+    return out
